@@ -230,7 +230,7 @@ func VerifC19Interrupt(n, e, graphs, mode int) {
 
 // VerifC19Refuse: a dump interrupted by a failing cursor fetch is resumed with
 // (what=0) another batch size, (1) another shard size, (2) another graph list, (3) a source
-// whose counts changed, (4) a file in the directory the checkpoint does not account for,
+// whose counts changed, (4) a file or a symbolic link in the directory the checkpoint does not account for,
 // (5) the checkpoint of another driver, (6) a completed graph that was empty and has gained a
 // node: the resume must fail.
 func VerifC19Refuse(n, e, what int) {
@@ -277,10 +277,22 @@ func VerifC19Refuse(n, e, what int) {
 		data.nodes = append(data.nodes, graph.NewNode(999, graph.NewProperties(), graph.StringKind("User")))
 	case 4:
 		stray := filepath.Join(out, "graphs", "alpha", "nodes-000099.jsonl")
-		if verifrt.NondetChoice("stray file place", 2) == 1 {
+		place := verifrt.NondetChoice("stray entry (0, 1: files; 2, 3: dangling symbolic links)", 4)
+		if place == 1 {
 			stray = filepath.Join(out, "notes.txt")
 		}
-		if verifOsMkdirAll(filepath.Dir(stray), 0o755) != nil || verifOsWriteFile(stray, []byte("{}\n"), 0o600) != nil {
+		if place == 3 {
+			stray = filepath.Join(out, "graphs", "alpha", "nodes-000099.jsonl.tmp")
+		}
+		if verifOsMkdirAll(filepath.Dir(stray), 0o755) != nil {
+			return
+		}
+		if place >= 2 {
+			// an entry that is neither a directory nor a regular file is unaccounted for too
+			if verifOsSymlink(filepath.Join(out, "no-such-target"), stray) != nil {
+				return
+			}
+		} else if verifOsWriteFile(stray, []byte("{}\n"), 0o600) != nil {
 			return
 		}
 	case 6:
